@@ -257,3 +257,12 @@ M.loop(P + ':ok_out_param', 0,
        invariant=lambda _i, xs, acc, old: len(acc) == old + _i and forall_range(
            0, _i, lambda k: acc[old + k][1] == xs[k] + 1),
        modifies=dict(acc=MListOf(FixedList(Int, Int, as_tuple=True)), x='local'))
+
+
+def ok_int_round_trip(n):
+    """exit codes are stored as text and read back (also negative ones: killed by a signal)"""
+    return int(str(n))
+
+
+M.contract(P + ':ok_int_round_trip', params=dict(n=Int), returns=Int,
+           ensures={'int(str(n)) == n': lambda n, result: result == n}, raises_only=())
